@@ -441,9 +441,13 @@ enum Piece {
   C,
   /// binding site / inner occurrence of a local name that shadows the i-th chosen bound name
   S(usize),
+  /// the j-th local name in its canonical spelling (inside a string literal used as a context key)
+  Q(usize),
+  /// the bound name `zlist`: a list of contexts whose *later* item has the 0-th local name as a key
+  Z,
 }
 
-use Piece::{C, L, N, S, T};
+use Piece::{C, L, N, Q, S, T, Z};
 
 fn templates() -> Vec<(&'static str, Vec<Piece>)> {
   vec![
@@ -516,6 +520,18 @@ fn templates() -> Vec<(&'static str, Vec<Piece>)> {
     ("shadow-context", vec![T("{k: {"), S(0), T(": 1, j: "), S(0), T(" + 1}.j, m: "), N(0), T(" * 3}.m")]),
     ("shadow-context", vec![T("{k: {"), S(0), T(": 1}, m: "), N(0), T(" + 1}.m")]),
     ("shadow-nested", vec![T("sum(for "), S(0), T(" in [1, 2] return sum(for "), S(1), T(" in [3] return "), S(1), T(" + "), S(0), T(") + "), S(0), T(" * 2) + "), N(0), T(" * 3 + "), N(1), T(" - 1")]),
+    // a context key written as a string literal is a name for the entries that follow
+    ("string-key", vec![T("{\""), Q(0), T("\": "), N(0), T(", j: "), L(0), T(" * 2}.j")]),
+    ("string-key", vec![T("{\""), Q(0), T("\": 1, \""), Q(1), T("\": "), L(0), T(" + 1, j: "), L(1), T(" - "), L(0), T("}.j")]),
+    // an entry bound to null shadows an outer binding of the same name
+    ("null-shadow", vec![T("{"), S(0), T(": null, j: "), S(0), T("}.j")]),
+    ("null-shadow", vec![T("[{"), S(0), T(": null, j: "), S(0), T("}.j, "), N(0), T(" + 1]")]),
+    // a name used after an indexed filter over contexts that have it as a key still is the outer binding
+    ("filter-then-name", vec![T("([{"), S(0), T(": 1}, {"), S(0), T(": 2}][2]."), S(0), T(") + "), N(0)]),
+    ("filter-then-name", vec![T("[[{"), S(0), T(": 1}, {"), S(0), T(": 2}][1]."), S(0), T(", "), N(0), T(" - 1]")]),
+    // the keys of every item of a list of contexts in the scope are names (not only those of the first item)
+    ("list-item-key", vec![Z, T("["), L(0), T(" - 1 > 0].fld")]),
+    ("list-item-key", vec![T("(for e in "), Z, T(" return e.fld)[2] + "), Z, T("["), L(0), T(" * 2 > 0].fld")]),
     ("comment", vec![N(0), T(" /* c */ + "), N(1)]),
     ("comment", vec![N(0), T(" /* c */ /* d */ // e\n /* f */ + "), N(1)]),
     ("comment", vec![T("/* a */ /* b */ "), N(0), T(" /* c *//* d */")]),
@@ -711,7 +727,40 @@ pub fn run(cfg: &Cfg) -> Report {
             occurrences.push((start, text.chars().count()));
             forced.push(None);
           }
+          Q(j) => {
+            let start = text.chars().count();
+            multi = true;
+            text.push_str(&Name::new(&locals[*j].iter().map(|s| s.as_str()).collect::<Vec<&str>>()).to_string());
+            occurrences.push((start, text.chars().count()));
+            forced.push(None);
+          }
+          Z => {
+            let start = text.chars().count();
+            text.push_str("zlist");
+            occurrences.push((start, text.chars().count()));
+            forced.push(None);
+          }
         }
+      }
+      // `zlist`: bound in this case's scope only; its later item carries the 0-th local name as a key
+      let mut bound = bound.clone();
+      let (mut scope, mut keys) = (scope_of(&bound), keys.clone());
+      if tpl.iter().any(|p| matches!(p, Z)) {
+        let local0 = Name::new(&locals[0].iter().map(|s| s.as_str()).collect::<Vec<&str>>());
+        if bound.iter().any(|b| b.name.to_string() == "zlist" || b.name == local0) {
+          continue;
+        }
+        let mut first = FeelContext::default();
+        first.set_entry(&Name::from("fld"), Value::Number(FeelNumber::from_i128(1)));
+        let mut second = FeelContext::default();
+        second.set_entry(&Name::from("fld"), Value::Number(FeelNumber::from_i128(2)));
+        second.set_entry(&local0, Value::Number(FeelNumber::from_i128(3)));
+        let value = Value::List(dmntk_feel::values::Values::new(vec![Value::Context(first), Value::Context(second)]));
+        // in the expected text the name stays (a literal list would hide its keys from the lexer); the expected
+        // text is evaluated in a scope that binds `zlist` to the same list with the key renamed to `v0`
+        bound.push(Bound { parts: vec!["zlist".into()], name: Name::from("zlist"), value, literal: "zlist".into(), exotic: false });
+        scope = scope_of(&bound);
+        keys = sorted_keys(&scope);
       }
       // a fresh scope per evaluation: a failed parse leaves its pushed contexts in the scope
       let impl_value = eval_text(&scope_of(&bound), &text);
@@ -899,7 +948,23 @@ pub fn run(cfg: &Cfg) -> Report {
       continue;
     }
     expected_text.extend(chars[cursor..].iter());
-    let expected = eval_text(&empty, &expected_text);
+    let expected = if c.all_bound.iter().any(|b| b.literal == "zlist") {
+      let mut first = FeelContext::default();
+      first.set_entry(&Name::from("fld"), Value::Number(FeelNumber::from_i128(1)));
+      let mut second = FeelContext::default();
+      second.set_entry(&Name::from("fld"), Value::Number(FeelNumber::from_i128(2)));
+      second.set_entry(&Name::from("v0"), Value::Number(FeelNumber::from_i128(3)));
+      let mut ctx = FeelContext::default();
+      ctx.set_entry(&Name::from("zlist"), Value::List(dmntk_feel::values::Values::new(vec![Value::Context(first), Value::Context(second)])));
+      let s: Scope = ctx.into();
+      // what these two templates denote is known outright (the later item is the only one with the key, its
+      // value 3 satisfies both filters): the expectation does not go through the implementation's own
+      // treatment of list items
+      let _ = eval_text(&s, &expected_text);
+      if c.text.starts_with("zlist[") { "2".to_string() } else { "4".to_string() }
+    } else {
+      eval_text(&empty, &expected_text)
+    };
     rep.hit("evaluate:checked");
     if expected == "null" || expected.starts_with("parse-error") {
       rep.hit("evaluate:expected-null-or-error");
